@@ -1,6 +1,7 @@
 package main
 
 import (
+	"strings"
 	"go/token"
 	"fmt"
 	"go/ast"
@@ -542,10 +543,22 @@ func (fr *Frame) trInvariant(inv *Clause, li *loopInfo, st *State, entry *State)
 	return fr.safeTr(env, inv)
 }
 
+// softKinds: clause kinds whose unresolvable identifiers fail the clause rather than the function.
+var softKinds = map[string]bool{"ensures": true, "check": true, "invariant": true, "iter": true}
+
 func (fr *Frame) safeTr(env *Env, c *Clause) (t *Term) {
 	defer func() {
 		if r := recover(); r != nil {
 			if se, ok := r.(specErr); ok {
+				if strings.Contains(se.msg, "unknown identifier") && (softKinds[c.Kind] || fr.softAtCall) {
+					// the clause names something that does not exist at this point of the (changed) code: it
+					// cannot be established; an unconstrained constant makes exactly this clause fail as an
+					// obligation (and adds nothing when the clause is assumed) instead of losing the function
+					u := fr.enc.declare("unresolved", "Bool")
+					fr.enc.w.unresolved[u.Op] = se.msg
+					t = u
+					return
+				}
 				panic(unsupportedErr{"contract error: " + se.msg})
 			}
 			panic(r)
